@@ -39,7 +39,7 @@ def replay_fn(ctx, path):
     if ctx.prop == "C14":
         env["VERIF_RACE_BIN"] = ctx.build_harness(race=True)
     out = ctx.harness("replay", "--file", path, env=env)
-    return "REPRODUCED" in out
+    return any(l.startswith("REPRODUCED") for l in out.splitlines())
 
 
 def main():
